@@ -410,6 +410,13 @@ def rule_cyclic_layout(repo: Repo, rep: Report) -> int:
         "generator_matrix[i, j] = 1.0",
     ]
     ok = all(f in body for f in forms) and "n, k, m = (self._length, self._dimension, self._redundancy)" in body
+    # recognised wrong idiom: the coefficients of the integer word are unpacked with floating-point arithmetic
+    for st_ in ast.walk(gi.node):
+        if isinstance(st_, ast.Assign) and isinstance(st_.targets[0], ast.Subscript) and unparse(st_.targets[0].value if not isinstance(st_.targets[0].value, ast.Subscript) else st_.targets[0].value.value) == "generator_matrix":
+            vt = unparse(st_.value)
+            if ("float(" in vt and ".value" in vt) or ("torch.floor(" in vt and "/" in vt):
+                rep.violation("CYCLIC-LAYOUT", gi, st_, "the bits of the codeword polynomial (an integer of up to n bits) are extracted through floating-point division: a float32 quotient keeps 24 significant bits, so for code lengths above 24 the low-order coefficients of each row are rounded away (the standard table goes up to n = 127)", node=st_)
+                n += 1
     rep.expect(ok, "CYCLIC-LAYOUT", gi, "row i = X^(m+i) + (X^(m+i) mod g); coefficient of X^j stored in column j", "identity in columns m..n-1 (degree m+i), parity (degree < m) in columns 0..m-1", "systematic cyclic generator construction changed")
     n += 1
     init = repo.func(CYC, "CyclicCodeEncoder.__init__")
